@@ -31,6 +31,7 @@ func pureExternal(fn *types.Func) bool {
 		strings.HasPrefix(n, "github.com/cockroachdb/pebble/internal/crc."), strings.HasPrefix(n, "(github.com/cockroachdb/pebble/internal/crc.CRC)."),
 		strings.HasPrefix(n, "unsafe."),
 		strings.HasPrefix(n, "github.com/cockroachdb/pebble/internal/bitflip."),
+		n == "(*bytes.Buffer).Len", n == "(*bytes.Buffer).Bytes", n == "(*bytes.Buffer).String", n == "(*bytes.Buffer).Cap",
 		strings.HasSuffix(n, ".logf"), strings.HasSuffix(n, "Logger).Infof"), strings.HasSuffix(n, "Logger).Errorf"),
 		strings.HasSuffix(n, "Logger).Eventf"):
 		return true
@@ -538,6 +539,22 @@ func (x *Exec) inlinable(fn *types.Func) bool {
 	}
 	if len(x.stack) > 12 {
 		return false
+	}
+	// outside the module only small leaf packages are inlined from source; everything
+	// else is an unknown callee (havoc) or an engine model
+	if p := fn.Pkg(); p != nil && !strings.HasPrefix(p.Path(), repoModule) {
+		ok := false
+		for _, allow := range []string{"encoding/binary", "math/bits", "bytes", "cmp", "time", "math", "unicode/utf8", "github.com/cockroachdb/crlib/"} {
+			if p.Path() == allow || strings.HasPrefix(p.Path(), allow) && strings.HasSuffix(allow, "/") {
+				ok = true
+			}
+		}
+		if !ok {
+			return false
+		}
+		if sig := fn.Type().(*types.Signature); sig.Recv() != nil && strings.Contains(sig.Recv().Type().String(), "bytes.Buffer") {
+			return false // bytes.Buffer is an opaque dependency object
+		}
 	}
 	// generic functions: only when type parameters do not influence representation; reject
 	if sig := fn.Type().(*types.Signature); sig.TypeParams().Len() > 0 || sig.RecvTypeParams().Len() > 0 {
@@ -1068,7 +1085,7 @@ func (x *Exec) builtin(s *State, fr *Frame, name string, call *ast.CallExpr) Val
 				if es == 0 {
 					es = 1
 				}
-				lim := BVLit(maxObj/uint64(es), 64)
+				lim := BVLit(makeLimit/uint64(es), 64)
 				ok := And(Sle(I64(0), ln), Sle(ln, cp), Ule(cp, lim))
 				text := exprText(x.w.Fset, call)
 				if x.top.NoPanic {
